@@ -1,6 +1,7 @@
 (* C13 -- A module can be printed from many goroutines at once. *)
 From Coq Require Import List Bool Arith ZArith String.
-From LLIR Require Import Model.Concurrency Gen.Locks Gen.Printers Proofs.ConcurrencyProofs Proofs.GenTables Proofs.ObserverProofs.
+From LLIR Require Gen.Ctors Proofs.CtorProofs.
+From LLIR Require Import Model.Concurrency Gen.Locks Gen.Printers Proofs.ConcurrencyProofs Proofs.GenTables Proofs.ObserverProofs Proofs.CacheProofs.
 Import ListNotations.
 
 (* Model/Concurrency.v: any number of printer threads; each takes the mutex of the ID pass, walks the
@@ -58,3 +59,14 @@ Theorem C13_id_passes_called_from :
   map (fun p => (p_type p, p_method p)) (filter (fun p => existsb (fun m => ObserverProofs.mem m id_passes) (flat_map scalls (p_body p))) observers)
   = [("ir.Func", "LLString"); ("ir.Module", "WriteTo")]%string.
 Proof. exact id_passes_called_from. Qed.
+
+(* the caches are filled before any observer runs: every New* constructor of a type with a lazily filled Typ
+   cache (60 types, 61 constructors, regenerated tables) calls Type() on the new object; the parser's own
+   constructions (the asm.newXInst functions) either set Typ from the text or call Type() -- observed by the race runs and the
+   object-dump leg, not part of this statement *)
+Theorem C13_constructors_fill_type_caches :
+  forallb (fun c => negb (caches c) || CtorProofs.mem "Type" (Ctors.c_calls c)) Ctors.ctors = true.
+Proof. exact constructors_fill_type_caches. Qed.
+Theorem C13_caching_types_have_constructors :
+  forallb (fun tm => existsb (fun c => String.eqb (fst tm) (ctor_target c)) Ctors.ctors) caching_observers = true.
+Proof. exact caching_types_have_constructors. Qed.
